@@ -176,18 +176,41 @@ def run_impl(case):
             return {"raise": core.exc_class(e)}
     if kind == "thin":
         return _thin(case)
+    if kind == "plan":
+        from scipy.integrate import simpson
+        return {"raise": None, "value": float(simpson(np.asarray(case["y"], float), x=np.asarray(case["x"], float)))}
     raise ValueError("unknown kind %r" % (kind,))
 
 
 def run_model(drv, case):
     if case.get("kind") == "radial2D":
         return u.run_model(drv, _strip(case))
+    if case.get("kind") == "plan":
+        rf = drv.call({"op": "simpsonPlan", "y": [core.f2b(v) for v in case["y"]], "x": [core.f2b(v) for v in case["x"]]})
+        rq = drv.call({"op": "simpsonPlan", "num": "rat", "y": [core.f2q(v) for v in case["y"]],
+                       "x": [core.f2q(v) for v in case["x"]]})
+        for r in (rf, rq):
+            if "error" in r:
+                raise RuntimeError(r["error"])
+        return {"plan": core.b2f(rf["plan"]), "ref": core.b2f(rf["ref"]), "bits_equal": rf["plan"] == rf["ref"],
+                "rat_equal": rq["plan"] == rq["ref"]}
     return {"skip": True}
 
 
 def compare(case, impl, model):
     if model.get("skip"):
         return []
+    if case.get("kind") == "plan":
+        dis = []
+        if not model["rat_equal"]:
+            dis.append("Simpson plan differs from SnowModel/Simpson.lean over Rat")
+        if not model["bits_equal"]:
+            dis.append(f"Simpson plan differs bitwise from simpson: {model['plan']!r} vs {model['ref']!r}")
+        if not core.close(model["ref"], impl["value"], 1e-12 * max(1, sum(abs(v) for v in case["y"]))
+                          / max(1e-300, abs(impl["value"]), 1)):
+            if not core.close(model["ref"], impl["value"]):
+                dis.append(f"simpson: scipy {impl['value']!r} vs model {model['ref']!r}")
+        return dis
     return u.compare_runs(impl, model)
 
 
@@ -288,3 +311,13 @@ def cases(rng, tier):
                  dict(kind="thin", height=0.001, K_shelf=20, rate=0.5, t_tot=500)]
     for c in thin:
         yield c
+    # the pre-computed Simpson coefficients of the 2D model against SnowModel/Simpson.lean and SciPy
+    for _ in range(40 if tier == "quick" else 400):
+        n = rng.choice([2, 3, 4, 5, 6, 7, 15, 30, rng.randint(2, 33)])
+        if rng.random() < 0.6:
+            stop = rng.choice([0.005, 0.02, 1.0, 0.0375])
+            x = list(np.linspace(0, stop, n))
+        else:
+            x = sorted(rng.sample([k / 64 for k in range(0, 257)], n))
+        y = [rng.choice([0.0, 1.0, rng.uniform(-3, 3), rng.randint(-8, 8) / 8]) for _ in range(n)]
+        yield dict(kind="plan", x=[float(v) for v in x], y=y)
